@@ -320,7 +320,9 @@ type c2gen struct{ r *rand.Rand }
 
 var c2topKeys = []string{"type", "content", "room_id", "sender", "origin", "depth", "a", "b", "c", "hashes", "prev_events",
 	"origin_server_ts", "é", "日本", "😀k", "a.b", "a*b", "k?", "#", "@x", "<tag>", "&amp", "Signatures", "Unsigned", "SIGNATURES",
-	"unſigned", "ſignatures", "signature", "unsigned2", "sig natures", "signatures.x", "unsigned.age", "signatures|x", "*signatures", "signatures#", " ", "", "~", string(rune(0x2028)), string(rune(0x212a)), "0", "-", "x|y", "a/b", "zz", "Z"}
+	"unſigned", "ſignatures", "signature", "unsigned2", "sig natures", "signatures.x", "unsigned.age", "signatures|x", "*signatures", "signatures#", " ", "", "~", string(rune(0x2028)), string(rune(0x212a)), "0", "-", "x|y", "a/b", "zz", "Z",
+	// keys that need escaping in canonical form (CanonicalJSON defect F1, repaired)
+	`q"uote`, `back\\slash`, "tab\tkey", "nl\nkey", "\x01ctl", `"`, `\\`, `a\\"b`, "\x1f", `signatures"`, `"unsigned`, "\b\f\r"}
 
 // keys that may also occur below the top level (there the two special names are ordinary members)
 var c2nestedKeys = append([]string{"signatures", "unsigned"}, c2topKeys...)
@@ -328,8 +330,9 @@ var c2nestedKeys = append([]string{"signatures", "unsigned"}, c2topKeys...)
 var c2strings = []string{"", "x", "hello world", `a"b`, `back\slash`, "line\nbreak\ttab", "\x01\x1f\x7f", "é", "😀", "/", "</script>&", string(rune(0x2028)),
 	"m.room.message", "@alice:example.org", "!room:example.org", "signatures", "null", "0", `{"a":1}`, strings.Repeat("long", 20), "\b\f\r", "ſ"}
 
-// no literal starts with -0. or -0e (defect F2 of CanonicalJSON, repaired under C01)
-var c2numbers = []string{"0", "1", "-1", "42", "-0", "7", "100", "9007199254740991", "-9007199254740992", "9007199254740993",
+// -0.x / -0e literals included (defect F2 of CanonicalJSON, repaired): only a bare -0 becomes 0
+var c2negZero = []string{"-0.5", "-0.0", "-0e1", "-0.25", "-0E+2", "-0.000", "-0.5e3", "-0e-1"}
+var c2numbers = []string{"-0.5", "-0.0", "-0e1", "1e-05", "-0.25", "-0E+2", "0.5", "-1e-05", "-0.000", "0e1", "0", "1", "-1", "42", "-0", "7", "100", "9007199254740991", "-9007199254740992", "9007199254740993",
 	"12345678901234567890", "1.5", "-1.25", "1e3", "1E+2", "2.50", "0.0", "1e-2", "10", "-10"}
 
 func (g *c2gen) pick(l []string) string { return l[g.r.Intn(len(l))] }
